@@ -262,6 +262,11 @@ def run_one(tape, tier, prop):
 
     # honeyword modes: N against a longer limit M, same RNG
     M = t.between(3, 40)
+    if t.chance(1, 4):
+        # long sessions: these modes never run out of guesses, so any limit must be reached however many walks
+        # end in the Markov structure (which yields no guess) on the way
+        M = t.choice([200, 1500, 4000])
+        res.stats["long_honeyword_sessions"] += 1
     textM, seamM, rM = run_proc(argv + ["--limit", str(M)], mode_rng=SimRandom(rng_seed))
     if rM.exc:
         if "IndexError" in rM.exc or "list index out of range" in rM.exc:
@@ -399,7 +404,7 @@ def extra_phase(tier, base_seed):
         for extra, want in (([], text), (["--limit", str(limit)], text_l)):
             p = subprocess.Popen([sys.executable, "-W", "ignore", os.path.join(code, "pcfg_guesser.py")] + argv + extra,
                                  stdin=subprocess.PIPE, stdout=subprocess.PIPE, stderr=subprocess.DEVNULL,
-                                 env=dict(os.environ, PYTHONUTF8="1"))
+                                 env=dict(os.environ, PYTHONUTF8="1", PYTHONHASHSEED=str(1 + 4441 * i + (7 if extra else 0))))
             try:
                 so, _ = p.communicate(timeout=120)
             except subprocess.TimeoutExpired:
